@@ -3,7 +3,7 @@ from vsym.runner import Ob
 from .common import *
 from .isomsg import *
 from .ipmfile import *
-from .c01 import GENERIC
+from .c01 import GENERIC, GENERIC_DEC
 
 PROPERTY = 'C06'
 ASSUMPTIONS = [
@@ -185,6 +185,7 @@ def obligations(tier):
                 obs.append(Ob('rt2/' + tag, roundtrip(2, enc, blocked, shapes=SHAPES[:4] if q else SHAPES), 900,
                               'two messages, any two shapes, variable lengths up to 400', _funcs))
     obs.append(Ob('rt1/custom-config/cp500/1014', roundtrip(1, 'cp500', True, cfgs=GENERIC['g-var']), 300, 'caller-supplied configuration g-var', _funcs))
+    obs.append(Ob('rt2/custom-config-decimal/cp500/1014', roundtrip(2, 'cp500', True, cfgs=GENERIC_DEC), 300, 'caller-supplied configuration with decimal fields (values from a concrete family incl. zero)', _funcs))
     obs.append(Ob('rt2/custom-config/latin_1/vbs', roundtrip(2, 'latin_1', False, cfgs=GENERIC['g-typed']), 300, 'caller-supplied configuration g-typed', _funcs))
     if not q:
         obs.append(Ob('rt3/cp500/1014', roundtrip(3, 'cp500', True, shapes=SHAPES[:3]), 1800, 'three messages', _funcs))
